@@ -28,7 +28,7 @@ ASSUMPTIONS = [
 
 def strategy(tier):
     thorough = tier == "thorough"
-    opts = gen.TreeOpts(max_depth=4 if thorough else 3, count_transforms=True)
+    opts = gen.TreeOpts(max_depth=4 if thorough else 3, count_transforms=True, cat_cols=("s", "s", "b"))
 
     @st.composite
     def cases(draw):
